@@ -758,17 +758,20 @@ def mon_c13(hs, prev, op, ok, trace, cur, known):
     t = track_inst(hs, op, ok)
     if prev is None or not ok or t[0] != 'reg' or t[2] != 'remove':
         return None
-    if not (wired(prev, hs) and wired(cur, hs)):
-        return None
     v = t[3]
-    vals = cur.one('rg.vals')
-    if vals is None or vals == [] or vals[0] == 'err':
-        return ('violation', 'registry is empty / unusable after removing %s' % v)
-    names = [x.split(':')[0] for x in vals]
-    if v in names:
-        return ('violation', '%s is still registered after RemoveValidator' % v)
+    # the registry's own guarantees do not depend on how the other contracts are wired
     if t[1] != prev.one('rg.cfg')[0]:
         return ('violation', 'RemoveValidator accepted from %s' % t[1])
+    vals = cur.one('rg.vals')
+    if vals == []:
+        return ('violation', 'the registry is empty after removing %s: the last validator was removed' % v)
+    if vals is not None and vals[0] != 'err' and v in [x.split(':')[0] for x in vals]:
+        return ('violation', '%s is still registered after RemoveValidator' % v)
+    if not (wired(prev, hs) and wired(cur, hs)):
+        return None
+    if vals is None or vals[0] == 'err':
+        return ('violation', 'registry is unusable after removing %s' % v)
+    names = [x.split(':')[0] for x in vals]
     pd, cd = delegs(prev), delegs(cur)
     env = prev.one('env')
     can = env[4][int(v[3:])] == '1' if v.startswith('val') and v[3:].isdigit() and int(v[3:]) < 8 else False
